@@ -1563,7 +1563,11 @@ impl Melda {
             });
             let mut c_r: std::sync::MutexGuard<'_, HashMap<String, Map<String, Value>>> =
                 c.lock().unwrap();
-            let root = c_r.get(start).expect("root_object_not_found");
+            // The requested root may exist only as a deleted object
+            let root = match c_r.get(start) {
+                Some(root) => root,
+                None => bail!("root_object_not_found"),
+            };
             let root = Value::from(root.clone());
             let result = unflatten(&mut c_r, &root)
                 .unwrap()
